@@ -24,6 +24,7 @@ RULE = ("frames: every opcode x mask x fin/rsv bits x payload length at the 125/
 ASSUMPTIONS = ["continuation frames (opcode 0) and message fragmentation are not supported by the code and outside the statement",
                "client frames are masked, carry a wire opcode (Text/Binary/Close/Ping/Pong) and Text payloads are valid UTF-8",
                "payload length < 2^63 (RFC 6455)"]
+USES_GENERATED_WS = True
 TRUSTED = ["Twisted raw-mode plumbing (HTTPChannel.dataReceived -> handler) is not modelled: the harness calls "
            "WebSocketTemporaryHandler.__call__ with each TCP read",
            "an exception escaping __call__ is taken to end the connection (runs stop at the first exception)"]
@@ -595,6 +596,65 @@ def constructors_and_send(run, viol):
 
 
 
+def generated_kernels(run):
+    """units gen_ws_header / gen_ws_data_header / gen_ws_parse_header: the definitions REGENERATED from
+    http_server.py by tools/py2v_bytes.py against WebSocketFrame.serializeHeader / serializeDataHeader / parseHeader"""
+    from mpgameserver.http_server import WebSocketFrame, WebSocketOpCode
+    M, r = run.model, run.rng
+    odd = [0, 1, 1, 1, 0, 0, 2, 3, -1, 255, 256, 1 << 40]
+    lens = [0, 1, 124, 125, 126, 127, 128, 255, 256, 65534, 65535, 65536, 65537, 2 ** 32, 2 ** 63 - 1, 2 ** 63, 2 ** 64 - 1,
+            2 ** 64, -1, -126]
+    hc = []
+    for op in OPS + [OPEN]:
+        for mask in (0, 1):
+            for n in lens:
+                hc.append([r.choice([0, 1]), r.choice([0, 1]), r.choice([0, 1]), r.choice([0, 1]), op, mask, n])
+    for _ in range(3000 if run.thorough() else 600):
+        hc.append([r.choice(odd), r.choice(odd), r.choice(odd), r.choice(odd), r.choice(OPS + [OPEN]), r.choice(odd),
+                   r.choice(lens + [r.randrange(0, 70000), r.randrange(0, 2 ** 66)])])
+
+    def frame(c):
+        f = WebSocketFrame()
+        f.flags.fin, f.flags.rsv1, f.flags.rsv2, f.flags.rsv3 = c[0], c[1], c[2], c[3]
+        f.flags.opcode = WebSocketOpCode(c[4])
+        f.flags.mask, f.payload_length = c[5], c[6]
+        return f
+    run.compare("gen_ws_header", hc, [lib.guarded(lambda: bytes(frame(c).serializeHeader())) for c in hc],
+                M.call_many("gen_ws_header", hc))
+    dc = []
+    for mask in (0, 1, 2, -1):
+        for n in lens + [r.randrange(0, 70000) for _ in range(20)]:
+            dc.append([mask, n, rnd_bytes(r, r.choice([4, 4, 4, 0, 1, 5]))])
+
+    def dh(c):
+        f = WebSocketFrame()
+        f.flags.mask, f.payload_length, f.masking_key = c[0], c[1], c[2]
+        return bytes(f.serializeDataHeader())
+    run.compare("gen_ws_data_header", dc, [lib.guarded(lambda: dh(c)) for c in dc], M.call_many("gen_ws_data_header", dc))
+    pc = [[a, b] for a in range(256) for b in range(256)]
+    pm = M.call_many("gen_ws_parse_header", pc)
+    valid = {o for o in OPS + [OPEN]}
+    pi, pcmp, pcase = [], [], []
+    refused = 0
+    for c, m in zip(pc, pm):
+        f = WebSocketFrame()
+        try:
+            f.parseHeader(bytes(c))
+            got = [f.flags.fin, f.flags.rsv1, f.flags.rsv2, f.flags.rsv3, f.flags.opcode.value, f.flags.mask, f.flags.length]
+        except ValueError:
+            got = None
+        if got is None:
+            # WebSocketOpCode(n) refused n: the kernel leaves the enum conversion to the caller
+            refused += 1
+            if m[4] in valid:
+                run.oracle_violation("parseHeader-refuses-valid-opcode", {"header": c}, "WebSocketFrame.parseHeader")
+            continue
+        pcase.append(c); pi.append(got); pcmp.append(m)
+    run.compare("gen_ws_parse_header", pcase, pi, pcmp)
+    run.count("gen_ws_parse_header_invalid_opcode", refused)
+    run.exhaustive.append("parseHeader: all 65536 two-byte headers against the regenerated kernel")
+
+
 def run(run):
     M = run.model
     r = run.rng
@@ -835,4 +895,5 @@ def run(run):
     k = next((i for i, (c, ch, fr) in enumerate(fcases) if fr and len(ch) == 3), 0)
     run.sample({"unit": "ws_feed", "chunks": lib.jsonable(fcases[k][1]), "impl": lib.jsonable(impl_f[k])})
     constructors_and_send(run, viol)
+    generated_kernels(run)
     run.rules.append(RULE)
